@@ -75,7 +75,10 @@ META['rule'] += ('; fragments: records of tasks sharing a source made to diverge
                  'calc_dep scenario family (scan -> obj<i>, 3 selection orders x 1-2 consumers x serial/thread/process): '
                  'outside M2, no correspondence, monitor = statement-level Python predicate (every run of the script is '
                  'fully successful, so the set of tasks whose inputs changed since their last successful execution is '
-                 'known by construction: skipped => not in the set (C03), executed => in the set (C04))')
+                 'known by construction: skipped => not in the set (C03), executed => in the set (C04)); group scenario '
+                 'family with the same kind of monitor: a task generator yielding 0 (EMPTY group) / 1 / 2 sub-tasks as source '
+                 'of result_dep and of getargs+task_dep consumers; in the modelled histories 20% of the non-first tasks get '
+                 'getargs from an earlier task together with an explicit task_dep on it (= the implicit result_dep item)')
 META['level_note'] += ('  The ghost `saw` of an execution is the file system AFTER the action ran (what save_success '
                        'reads), so an action that rewrites its own file_dep is judged against the content it left.  '
                        'An exact restore of an older (content, mtime) pair is not in the model\'s alphabet (edits always '
